@@ -83,6 +83,12 @@ def run_case(case):
                 b = r.choice([1e200, 1e10, 1e150, 1e300, 4e250])
                 n = r.randint(2, 7)
                 out["hist"][f"{which}:extreme_magnitudes"] = out["hist"].get(f"{which}:extreme_magnitudes", 0) + 1
+            if r.random() < 0.05:
+                # Python ints beyond the int64 range (all exactly representable as floats) and beyond the float range
+                a = r.choice([0, 1, -2**70, 2**64, -10**400])
+                b = r.choice([2**64, 2**70, 3 * 2**80, 10**400, 2**1024, 2**1023])
+                n = r.randint(2, 4)
+                out["hist"][f"{which}:huge_ints"] = out["hist"].get(f"{which}:huge_ints", 0) + 1
             if explicit:
                 _, a, b, n = explicit.pop(0)
                 a, b = (float(x) if isinstance(x, str) else x for x in (a, b))
